@@ -320,6 +320,16 @@ func (e *Exec) execInstr(fr *Frame, st *State, in ssa.Instruction) bool {
 	case *ssa.MakeSlice:
 		ln := e.val(fr, x.Len, st).t()
 		sl := x.Type().Underlying().(*types.Slice)
+		{
+			// make panics on a negative length, on len > cap and on a size beyond the
+			// allocator's limit (2^48 bytes on 64-bit platforms)
+			cp := e.val(fr, x.Cap, st).t()
+			esz := int64(8)
+			if sz := (&types.StdSizes{WordSize: 8, MaxAlign: 8}).Sizeof(sl.Elem()); sz > 0 {
+				esz = sz
+			}
+			e.safety(fr, st, in, "makeslice", sAnd(sx("<=", "0", ln), sx("<=", ln, cp), sx("<=", sx("*", cp, sInt(esz)), "281474976710656")), "make: length/capacity out of range")
+		}
 		if isByteSlice(x.Type()) {
 			s := e.S.Fresh("mk", "String")
 			e.S.Assert(sEq(sx("str.len", s), ln))
